@@ -1,8 +1,8 @@
 #!/bin/bash
-# usage: lib/confirm_seed.sh <ID> [src-dir]  -> confirms a seeded change in a fresh scratch worktree and stores it under /verif/seeded/<ID>/
-id=$1; src=${2:-/tmp/wt-out/$id}
+# usage: lib/confirm_seed.sh <ID> [src-dir] [dest-name]  -> confirms a seeded change in a fresh scratch worktree and stores it under /verif/seeded/<dest-name>/
+id=$1; src=${2:-/tmp/wt-out/$id}; dest=${3:-$id}
 wt=/tmp/wtc/$id
-mkdir -p /tmp/wtc /verif/seeded/$id
+mkdir -p /tmp/wtc /verif/seeded/$dest
 git -C /repo worktree remove --force $wt 2>/dev/null
 git -C /repo worktree add -q $wt HEAD || exit 1
 name=$(echo demo_${id}_test.go | tr 'A-Z' 'a-z')
@@ -32,7 +32,7 @@ done
 suite="$suite | persistent failures when re-run alone: [${persistent# }]"
 cd /
 git -C /repo worktree remove --force $wt
-cp $src/patch.diff /verif/seeded/$id/patch.diff
-cp $src/demo_test.go /verif/seeded/$id/demo_test.go
-jq --arg clean "$clean" --arg mut "$mut" --arg suite "$suite" '. + {confirmed_by_me: {demo_on_clean_tree: $clean, demo_with_patch: $mut, pinned_suite_with_patch: $suite}}' $src/meta.json > /verif/seeded/$id/meta.json
+cp $src/patch.diff /verif/seeded/$dest/patch.diff
+cp $src/demo_test.go /verif/seeded/$dest/demo_test.go
+jq --arg clean "$clean" --arg mut "$mut" --arg suite "$suite" '. + {confirmed_by_me: {demo_on_clean_tree: $clean, demo_with_patch: $mut, pinned_suite_with_patch: $suite}}' $src/meta.json > /verif/seeded/$dest/meta.json
 echo "CONFIRM $id clean=[$clean] patched=[$mut] suite=[$suite]"
